@@ -80,10 +80,13 @@ def _get_ast_node_variables(node: ast.AST, aliases: Mapping) -> list[Variable]:
     todo = deque([node])
     while todo:
         node = todo.popleft()
-        if not isinstance(node, (ast.Call, ast.Attribute, ast.Name)):
+        # Only (calls of) plain `name.attr...` chains are variables; anything
+        # else (calls on call results, attributes of other expressions, ...) is
+        # an ordinary expression all of whose children need to be visited.
+        name = _get_ast_node_name(node.func if isinstance(node, ast.Call) else node)
+        if name is None:
             todo.extend(ast.iter_child_nodes(node))
             continue
-        name = _get_ast_node_name(node)
         name = aliases.get(name, name)
         if isinstance(node, ast.Call):
             variables.append(Variable(name, roles=["callable"]))
@@ -95,14 +98,14 @@ def _get_ast_node_variables(node: ast.AST, aliases: Mapping) -> list[Variable]:
     return variables
 
 
-def _get_ast_node_name(node: ast.AST) -> str:
+def _get_ast_node_name(node: ast.AST) -> Optional[str]:
+    """
+    The dotted name of a `Name`/`Attribute` chain, or `None` if `node` is not
+    such a chain.
+    """
     if isinstance(node, ast.Name):
         return node.id
-    if isinstance(node, ast.Call):
-        return _get_ast_node_name(node.func)
     if isinstance(node, ast.Attribute):
-        return f"{_get_ast_node_name(node.value)}.{node.attr}"
-    raise ValueError(  # pragma: no cover
-        f"Unknown AST node type during variable extraction: {type(node)}. "
-        "Please report this!"
-    )
+        base = _get_ast_node_name(node.value)
+        return None if base is None else f"{base}.{node.attr}"
+    return None
